@@ -155,24 +155,20 @@ func runC20(c *core.Ctx) {
 		c.Analysed(core.FuncName(f))
 		ok := true
 		n := 0
-		core.Instrs(f, func(ins ssa.Instruction) {
-			r, isR := ins.(*ssa.Return)
-			if !isR {
-				return
-			}
+		for _, rc := range core.ReturnCases(f) {
 			n++
 			matched, known := false, false
-			for _, cnd := range core.EdgeFacts(r.Block()) {
+			for _, cnd := range rc.Facts {
 				nrm := core.Normalize(cnd)
 				if inv, isC := nrm.V.(*ssa.Call); isC && inv.Call.IsInvoke() && inv.Call.Method.Name() == "Matches" && inv.Call.Value == ssa.Value(f.Params[0]) && len(inv.Call.Args) == 1 && inv.Call.Args[0] == ssa.Value(f.Params[1]) {
 					matched, known = nrm.True, true
 				}
 			}
-			isNil := core.IsNilConst(core.RetVals(r)[0])
+			isNil := core.IsNilConst(core.Resolve(rc.Vals[0]))
 			if !known || matched == isNil {
 				ok = false
 			}
-		})
+		}
 		c.Check(ok && n == 2, "R6", "NewCompData", p.Pos(f.Pos()), "non-nil exactly on the compType.Matches(value...) edge", "NewCompData does not return a value exactly when its arguments match the declared type")
 	}
 	if f := p.Method(p.Fpgo, "SumType", "Matches"); f == nil {
@@ -243,6 +239,38 @@ func runC20(c *core.Ctx) {
 				}
 			}
 		})
+		if !allOf {
+			// early-exit form: inside the loop a mismatch of kinds[i] and the value's kind returns false at once,
+			// true is returned only after the loop
+			mismatchFalse, trueAfter, trueInside := false, false, false
+			for _, rc := range core.ReturnCases(f) {
+				k, isK := core.Resolve(rc.Vals[0]).(*ssa.Const)
+				if !isK {
+					trueInside = true // a computed result: not this form
+					continue
+				}
+				inLoop := insideLoop(rc.Via[0])
+				if isTrueConst(k) {
+					if inLoop {
+						trueInside = true
+					} else {
+						trueAfter = true
+					}
+					continue
+				}
+				for _, m := range rc.Cmps() {
+					if m.Op == token.NEQ && inLoop && !strings.HasPrefix(core.Path(m.X), "len(") {
+						if _, isIdx := core.Resolve(m.X).(*ssa.UnOp); isIdx {
+							mismatchFalse = true
+						}
+						if _, isIdx := core.Resolve(m.Y).(*ssa.UnOp); isIdx {
+							mismatchFalse = true
+						}
+					}
+				}
+			}
+			allOf = mismatchFalse && trueAfter && !trueInside
+		}
 		c.Check(arity && allOf, "R6", "ProductType.Matches", p.Pos(f.Pos()), "arity test then conjunction over all positions", fmt.Sprintf("ProductType.Matches is not arity test (%v) plus all-of over the kinds (%v)", arity, allOf))
 	}
 }
@@ -506,7 +534,30 @@ func c20trampoline(p *core.Prog, f *ssa.Function) (bool, string) {
 				bad = "the error exit does not return (nil, err)"
 			}
 		case onDone:
-			if ex, isE := core.Resolve(rv[0]).(*ssa.Extract); isE && ex.Tuple == ssa.Value(step) && ex.Index == 0 {
+			res := core.Resolve(rv[0])
+			if phi, isPhi := res.(*ssa.Phi); isPhi {
+				// result variable carried around the loop: inside the loop it always holds the last step's result
+				inner := 0
+				for i, e := range phi.Edges {
+					pred := phi.Block().Preds[i]
+					if phi.Block().Dominates(pred) {
+						if ex, isE := core.Resolve(e).(*ssa.Extract); isE && ex.Tuple == ssa.Value(step) && ex.Index == 0 {
+							inner++
+						} else {
+							inner = -99
+						}
+					}
+				}
+				if inner > 0 {
+					res = core.Resolve(phi.Edges[0])
+					for i, e := range phi.Edges {
+						if phi.Block().Dominates(phi.Block().Preds[i]) {
+							res = core.Resolve(e)
+						}
+					}
+				}
+			}
+			if ex, isE := res.(*ssa.Extract); isE && ex.Tuple == ssa.Value(step) && ex.Index == 0 {
 				okDone = true
 			} else {
 				bad = "the done exit does not return the last result"
@@ -735,7 +786,6 @@ func c20boolTo10(p *core.Prog, cl *ssa.Function, cond ssa.Value, depth int) (okT
 		if !ok {
 			return
 		}
-		val := int64(-1)
 		if hc, isC := core.RetVals(r)[0].(*ssa.Call); isC && depth < 2 {
 			if h := core.Callee(&hc.Call); h != nil && p.InRepo(h) && h.Name() != "SliceOf" {
 				for i, a := range hc.Call.Args {
@@ -748,30 +798,49 @@ func c20boolTo10(p *core.Prog, cl *ssa.Function, cond ssa.Value, depth int) (okT
 				}
 			}
 		}
+		// the element handed to SliceOf: a converted constant decided by the edge the return sits on, or a
+		// variable merged from both edges (`var result R; if c { result = 1 }; return SliceOf(result)`)
+		type cas struct {
+			val   int64
+			facts []core.Cond
+		}
+		var cases []cas
+		constOf := func(v ssa.Value) int64 {
+			for {
+				if mcv, isM := v.(*ssa.MultiConvert); isM {
+					v = mcv.X
+					continue
+				}
+				if cv, isCv := v.(*ssa.Convert); isCv {
+					v = cv.X
+					continue
+				}
+				break
+			}
+			if k, isK := v.(*ssa.Const); isK {
+				if k.Value == nil {
+					return 0 // zero value of the type parameter
+				}
+				if av, ok2 := core.ConstAV(k); ok2 && av.Lo != nil {
+					f64, _ := av.Lo.Float64()
+					return int64(f64)
+				}
+			}
+			return -1
+		}
 		if sc, isC := core.RetVals(r)[0].(*ssa.Call); isC && len(sc.Call.Args) == 1 {
-			// SliceOf(R(k)) → variadic slice literal holding a converted constant
 			if sl, isSl := sc.Call.Args[0].(*ssa.Slice); isSl {
 				if a, isA := sl.X.(*ssa.Alloc); isA {
 					for _, rr := range *a.Referrers() {
 						if ia, isIA := rr.(*ssa.IndexAddr); isIA {
 							for _, st := range core.Stores(ia) {
-								v := st.Val
-								for {
-									if mcv, isM := v.(*ssa.MultiConvert); isM {
-										v = mcv.X
-										continue
+								v := core.Resolve(st.Val)
+								if phi, isPhi := v.(*ssa.Phi); isPhi {
+									for i, e := range phi.Edges {
+										cases = append(cases, cas{constOf(core.Resolve(e)), core.EdgeFactsOn(phi.Block().Preds[i], phi.Block())})
 									}
-									if cv, isCv := v.(*ssa.Convert); isCv {
-										v = cv.X
-										continue
-									}
-									break
-								}
-								if k, isK := v.(*ssa.Const); isK {
-									if av, ok2 := core.ConstAV(k); ok2 && av.Lo != nil {
-										f64, _ := av.Lo.Float64()
-										val = int64(f64)
-									}
+								} else {
+									cases = append(cases, cas{constOf(v), core.EdgeFacts(r.Block())})
 								}
 							}
 						}
@@ -779,14 +848,20 @@ func c20boolTo10(p *core.Prog, cl *ssa.Function, cond ssa.Value, depth int) (okT
 				}
 			}
 		}
-		for _, cnd := range core.EdgeFacts(r.Block()) {
-			nrm := core.Normalize(cnd)
-			if nrm.V == cond {
-				if nrm.True && val == 1 {
-					okT = true
-				}
-				if !nrm.True && val == 0 {
-					okF = true
+		for _, cs := range cases {
+			for _, cnd := range cs.facts {
+				nrm := core.Normalize(cnd)
+				if nrm.V == cond {
+					if nrm.True && cs.val == 1 {
+						okT = true
+					}
+					if !nrm.True && cs.val == 0 {
+						okF = true
+					}
+					if nrm.True && cs.val != 1 || !nrm.True && cs.val != 0 {
+						okT, okF = false, false
+						return
+					}
 				}
 			}
 		}
